@@ -35,6 +35,7 @@ func runC08(c *ShardCtx) {
 		}
 		// wrapper rules: the probe after the recursive rule snapshots the final store
 		first := g.Rules[0].Name
+		origEps := eps
 		wr := []*peg.Rule{{Name: "S", Expr: peg.Seq(peg.Label("v", peg.Ref(first)), peg.AndCode(0))}}
 		var eps2 []*string
 		for _, ep := range eps {
@@ -77,6 +78,24 @@ func runC08(c *ShardCtx) {
 			fam.refOpts = func(o *peg.Options) { o.LeaderHeads = map[string]bool{ld: true} }
 		}
 		runGrammarMemoAware(c, g, fam)
+		// the same grammar WITHOUT the wrapper rules: parsing starts at the left-recursive
+		// rule itself (first rule, or selected with Entrypoint); value and errors only
+		if len(wr) > 0 {
+			g2 := &peg.Grammar{Rules: g.Rules[len(wr):]}
+			var os2 []rtapi.RunOpts
+			for _, ep := range origEps {
+				for _, o := range opts {
+					o.Entrypoint = ep
+					os2 = append(os2, o)
+				}
+			}
+			fam2 := *fam
+			fam2.opts = os2
+			fam2.extra = nil
+			fam2.confEvery = 0
+			c.Res.Grammars--
+			runGrammarMemoAware(c, g2, &fam2)
+		}
 	}
 	def := []*string{nil}
 	ts := []func() *peg.Expr{
